@@ -1,2 +1,70 @@
-(** C17  Every cell of a single-cell file reads back as the matrix given for it.  (statements follow) *)
-From Cooler Require Import Model.Scool.
+(** C17  Every cell of a single-cell file reads back as the matrix given for it.
+    Statements about the model of create_scool over the object store (Model/Scool.v, Model/H5.v),
+    each closed by a lemma of Proofs/ScoolProofs.v.
+    [cell_ok w f rc o1 o2 o3 c]: /cells/<name of c> is a group whose chroms table IS the object rc, whose
+    bins table has the objects o1 o2 o3 as chrom/start/end plus c's own extra columns with c's payloads,
+    and whose pixels and indexes tables hold exactly the columns given for c.
+    [keeps w w']: every link that could be looked up and every dataset object is unchanged. *)
+From Cooler Require Import Model.Scool Proofs.ScoolProofs.
+
+(** appending one cell on a fresh name keeps everything that was readable (frame) and writes its tables *)
+Theorem C17_append_cell_frame : forall w f a0 ls0 name sp w',
+  file_exists w f = true -> obj_at w f 0 = Some (Group a0 ls0) -> cell_fresh w f ls0 name ->
+  create w f ["cells"%string; name] false sp = (Ok, w') ->
+  keeps w w' /\
+  exists gc g, child w' f 0 "cells"%string = Some gc /\ child w' f gc name = Some g /\
+               (forall g0, assoc "cells"%string ls0 = Some (Hard g0) -> gc = g0) /\
+               forall n src, In (n, src) (cs_tables sp) -> table_ok w' f g n src.
+Proof. exact create_cell_spec. Qed.
+Print Assumptions C17_append_cell_frame.
+
+(** ... and adds exactly one member to /cells *)
+Theorem C17_append_cell_adds_one_name : forall w f a0 ls0 name sp w' gc,
+  file_exists w f = true -> obj_at w f 0 = Some (Group a0 ls0) -> cell_fresh w f ls0 name ->
+  create w f ["cells"%string; name] false sp = (Ok, w') ->
+  child w' f 0 "cells"%string = Some gc ->
+  forall m l, lookup_link w' f gc m = Some l ->
+    m = name \/ exists g0, assoc "cells"%string ls0 = Some (Hard g0) /\ lookup_link w f g0 m = Some l.
+Proof. exact create_cell_keys. Qed.
+Print Assumptions C17_append_cell_adds_one_name.
+
+(** induction over the cell list: creating cell B leaves cell A as it was *)
+Theorem C17_all_cells_by_induction : forall cells w f rc rb o1 o2 o3 done w',
+  root_ok w f rc rb o1 o2 o3 -> cells_state w f done ->
+  NoDup (done ++ map c_name cells) ->
+  append_cells w f cells = (Ok, w') ->
+  keeps w w' /\ (forall c, In c cells -> cell_ok w' f rc o1 o2 o3 c) /\
+  cells_state w' f (done ++ map c_name cells).
+Proof. exact append_cells_spec. Qed.
+Print Assumptions C17_all_cells_by_induction.
+
+(** the property: for distinct names, create_scool (mode "w") gives a file in which the common tables are
+    stored once at the root with the given payloads, EVERY cell reads back as given with chroms and the
+    three bin columns being the root's own objects, and /cells has no member besides the given names *)
+Theorem C17_every_cell_reads_back : forall w f rchroms rbins rattrs cells w' dc ds de,
+  create_scool w f true rchroms rbins rattrs cells = (Ok, w') ->
+  NoDup (map c_name cells) ->
+  In ("chrom"%string, dc) rbins -> In ("start"%string, ds) rbins -> In ("end"%string, de) rbins ->
+  exists rc rb o1 o2 o3,
+    root_ok w' f rc rb o1 o2 o3 /\
+    (forall k d, In (k, d) rchroms -> ds_at w' f rc k = Some d) /\
+    (forall k d, In (k, d) rbins -> ds_at w' f rb k = Some d) /\
+    (forall c, In c cells -> cell_ok w' f rc o1 o2 o3 c) /\
+    cells_state w' f (map c_name (sort_cells cells)).
+Proof. exact create_scool_spec. Qed.
+Print Assumptions C17_every_cell_reads_back.
+
+(** sorting the cell names only permutes them *)
+Theorem C17_sorted_names_are_the_given_names : forall l, Permutation.Permutation (sort_cells l) l.
+Proof. exact sort_cells_perm. Qed.
+Print Assumptions C17_sorted_names_are_the_given_names.
+
+(** non-vacuity + listing and recognition on a concrete file: two cells (one empty, a name with a space),
+    per-cell extra bin column, shared start column *)
+Example ex_C17_two_cells :
+  fst ex_scool = Ok /\
+  list_scool_cells (snd ex_scool) FA = (Ok, [["cells"; "cell A"]; ["cells"; "cellB"]]%string) /\
+  is_scool_file (snd ex_scool) FA = Some true /\
+  resolve (snd ex_scool) FA ["cells"; "cellB"; "bins"; "start"]%string = resolve (snd ex_scool) FA ["bins"; "start"]%string /\
+  resolve (snd ex_scool) FA ["cells"; "cell A"; "bins"; "w"]%string <> resolve (snd ex_scool) FA ["cells"; "cellB"; "bins"; "w"]%string.
+Proof. exact ex_scool_ok. Qed.
